@@ -45,6 +45,15 @@ HP = {
              dict(rest_v=-65.0, rheobase_v=-52.0, sharpness=2.0, reset_v=-70.0, thresh_v=-40.0, tc_membrane=16.0, tc_adaptation=(4.0, 16.0), voltage_coupling=(0.5, -0.25), spike_increment=(0.25, 1.0), resistance=0.5),
              dict(rest_v=0.0, rheobase_v=1.0, sharpness=0.5, reset_v=1.8, thresh_v=2.0, tc_membrane=2.0, tc_adaptation=4.0, voltage_coupling=0.0, spike_increment=0.0, resistance=1.0)],
 }
+ABS_V = ("rest_v", "reset_v", "thresh_v", "thresh_eq_v", "crit_v", "rheobase_v")
+
+
+def shifted_hp(cname, by=-60.0, idx=0):
+    """the same dynamics translated along the voltage axis (every shipped model depends on voltage differences only):
+    a non-zero resting potential, so that a zero-filled state is not accidentally the resting state"""
+    return {k: (v + by if k in ABS_V else v) for k, v in HP[cname][idx].items()}
+
+
 CLS = {"LIF": LIF, "ALIF": ALIF, "GLIF1": GLIF1, "GLIF2": GLIF2, "QIF": QIF, "Izhikevich": Izhikevich, "EIF": EIF, "AdEx": AdEx}
 ADAPT_THRESH = ("ALIF", "GLIF2")
 ADAPT_CURR = ("Izhikevich", "AdEx")
